@@ -198,6 +198,20 @@ func chanRecv(ex *Exec, ch *vchan) (value, bool) {
 	if ch.closed {
 		return nil, false
 	}
+	// a goroutine that blocks gives the others a chance to run: the harness-installed idle hook plays that role
+	if ex.idleHook != nil && !ex.inHook {
+		ex.inHook = true
+		call(ex.interp, nil, 0, ex.idleHook, nil)
+		ex.inHook = false
+		if len(ch.buf) > 0 {
+			v := ch.buf[0]
+			ch.buf = ch.buf[1:]
+			return v, true
+		}
+		if ch.closed {
+			return nil, false
+		}
+	}
 	ex.abort(AbortBlocked, "receive from empty channel")
 	return nil, false
 }
